@@ -79,6 +79,7 @@ class Oracles:
         self.mem_mismatch = {}  # instance name -> (first seen, kind): driver memory differs from the database
         self.cancelled_before = set()  # (batch, group) effectively... explicitly cancelled, committed earlier
         self.committed_updates = set()
+        self.update_commit_time = {}  # (batch, update) -> simulated time at which its commit was first seen
         self.proc_errors = []
         self.deleted_batches = set()
         self.checks_run = 0
@@ -173,7 +174,10 @@ class Oracles:
         bu = self.bu
         for r in bu.rows():
             if r[bu.col('committed')]:
-                self.committed_updates.add((r[bu.col('batch_id')], r[bu.col('update_id')]))
+                k = (r[bu.col('batch_id')], r[bu.col('update_id')])
+                if k not in self.committed_updates:
+                    self.committed_updates.add(k)
+                    self.update_commit_time[k] = self.ctx.loop.time() if self.ctx.loop is not None else 0.0
 
     # ---- transition monitors over the journal ------------------------------------------------------
     def _monitors(self, journal):
@@ -267,6 +271,62 @@ class Oracles:
                     if x != g and (b, x) in self.cancelled_before:
                         self.fail('C07', 'cancel_scope', 'C07/group_added_under_cancelled_group',
                                   f'group {(b, g)} created beneath cancelled group {x}')
+
+    # ---- C06: what the API REPORTS about a batch / job group ---------------------------------------------
+    def check_reported(self, b, g, rep, t_sent, quiescent=False):
+        """`rep` is the JSON the front end returned for batch b (g == 0) or job group (b, g) to a request sent at
+        simulated time t_sent.  Terminal states are absorbing, so a job that is non-terminal NOW and belongs to an
+        update that was committed before the request was sent was non-terminal when the handler read the database:
+        the response must not have said `complete`.  At quiescence (all committed jobs terminal, nothing in flight)
+        the converse and the counts are checked too."""
+        if not isinstance(rep, dict) or 'complete' not in rep:
+            return
+        committed, ancestors, _e, _eff, _batch = self.snapshot()
+        J = self.jobs
+        js, jb, jg, ju = (J.col(x) for x in ('state', 'batch_id', 'job_group_id', 'update_id'))
+        live_old = []
+        n_sub = 0
+        n_term = 0
+        for r in J.rows():
+            if r[jb] != b or (b, r[ju]) not in committed:
+                continue
+            if g != 0 and g not in ancestors.get((b, r[jg]), [r[jg]]):
+                continue
+            n_sub += 1
+            if r[js] in TERMINAL:
+                n_term += 1
+            elif self.update_commit_time.get((b, r[ju]), 1e18) < t_sent:
+                live_old.append((r[J.col('job_id')], r[js]))
+        self.ctx.probe('status_reported_complete' if rep['complete'] else 'status_reported_incomplete')
+        if rep['complete'] and live_old:
+            self.fail('C06', 'reported', 'C06/reported_complete_with_live_jobs',
+                      f'{"batch" if g == 0 else "job group"} {(b, g)} was reported complete (state '
+                      f'{rep.get("state")!r}) while jobs {live_old[:4]} of updates committed before the request are '
+                      f'not terminal')
+        if rep['complete'] and rep.get('n_jobs') is not None and rep.get('n_completed') is not None \
+                and rep['n_completed'] != rep['n_jobs']:
+            self.fail('C06', 'reported', 'C06/reported_complete_but_counts_differ',
+                      f'{(b, g)}: complete with n_completed {rep["n_completed"]} != n_jobs {rep["n_jobs"]}')
+        if quiescent:
+            if n_sub == n_term and not rep['complete']:
+                self.fail('C06', 'reported', 'C06/reported_incomplete_at_quiescence',
+                          f'{(b, g)}: all {n_sub} committed jobs are terminal and nothing is in flight, yet the API '
+                          f'reports complete = False (state {rep.get("state")!r})')
+            if rep.get('n_jobs') is not None and rep['n_jobs'] != n_sub:
+                self.fail('C06', 'reported', 'C06/reported_n_jobs_differs_at_quiescence',
+                          f'{(b, g)}: API n_jobs {rep["n_jobs"]} != {n_sub} committed jobs in the subtree')
+            for key, states in (('n_succeeded', ('Success',)), ('n_failed', ('Failed', 'Error')),
+                                ('n_cancelled', ('Cancelled',))):
+                if rep.get(key) is None:
+                    continue
+                cnt = 0
+                for r in J.rows():
+                    if r[jb] == b and (b, r[ju]) in committed and r[js] in states and \
+                            (g == 0 or g in ancestors.get((b, r[jg]), [r[jg]])):
+                        cnt += 1
+                if rep[key] != cnt:
+                    self.fail('C06', 'reported', f'C06/reported_{key}_differs_at_quiescence',
+                              f'{(b, g)}: API {key} {rep[key]} != recount {cnt}')
 
     # ---- C10: the driver's in-memory mirror of instance state / free cores ------------------------------
     MEM_SETTLE_S = 60.0
@@ -367,6 +427,10 @@ class Oracles:
                 if (jr[J.col('batch_id')], jr[J.col('update_id')]) not in committed:
                     self.fail('C41', 'uncommitted', 'C41/attempt_for_uncommitted_job',
                               f'attempt {key} created for a job of an uncommitted update')
+                if jr[J.col('attempt_id')] != new[aa]:
+                    # an attempt that is not the job's current one (double placement after a lost response, a report
+                    # that arrives after the job moved on): the orphaned-attempt sweep has something to do
+                    self.ctx.probe('orphan_attempt_created')
             return
         if op != 'upd':
             return
